@@ -445,7 +445,12 @@ impl<'a> TermWriter<'a> {
                         self.push_stub_addr()?;
                     }
                 }
-                &TermRef::AnonVar(Level::Root) | TermRef::Literal(Level::Root, ..) => {
+                &TermRef::AnonVar(Level::Root) => {
+                    let addr = self.term_as_addr(&term, h);
+                    self.var_dict.insert(VarKey::AnonVar(h), addr);
+                    self.push_cell(addr)?;
+                }
+                TermRef::Literal(Level::Root, ..) => {
                     let addr = self.term_as_addr(&term, h);
                     self.push_cell(addr)?;
                 }
@@ -456,8 +461,10 @@ impl<'a> TermWriter<'a> {
                 }
                 &TermRef::AnonVar(_) => {
                     if let Some((arity, site_h)) = self.queue.pop_front() {
+                        // key the variable by its own cell: `h` does not move between
+                        // consecutive anonymous variables
                         self.var_dict
-                            .insert(VarKey::AnonVar(h), heap_loc_as_cell!(site_h));
+                            .insert(VarKey::AnonVar(site_h), heap_loc_as_cell!(site_h));
 
                         if arity > 1 {
                             self.queue.push_front((arity - 1, site_h + 1));
